@@ -100,9 +100,35 @@ def check_locale(ctx, language, region, size=28, fill=0):
                   'config built from %r differs from the parsed one: %r vs %r' % (s, cfg2, cfg))
 
 
+def check_history(ctx, locales):
+    """history: one configuration object is re-encoded several times (`set_language_and_region` is what the constructor
+    uses for its locale= argument): after each step it must be the configuration a fresh object gets for that string."""
+    from androguard.core.axml import ARSCResTableConfig
+    case = {'mode': 'history', 'locales': [list(l) for l in locales]}
+    strs = ['\x00\x00' if (l == '' and r == '') else M.locale_string(l, r) for l, r in locales]
+    ctx.case(nontrivial=len(locales) >= 2, key=('history', tuple(strs)), labels=('history:n%d' % len(locales),),
+             sample={'re-encoded in turn': strs})
+    try:
+        cfg = ARSCResTableConfig(None, locale=strs[0])
+        for k, s in enumerate(strs):
+            if k:
+                cfg.set_language_and_region(s)
+            fresh = ARSCResTableConfig(None, locale=s)
+            word = M.pack_locale(*locales[k])[1]
+            got = (cfg.locale, cfg.get_language_and_region(), cfg == fresh, cfg.is_default())
+            want = (word, s, True, fresh.is_default())
+            if got != want:
+                ctx.fail('history:step%d' % min(k, 2), dict(case, step=k, observed=list(got), expected=list(want)),
+                         'after encoding %r in turn into one configuration: (word, string, equals fresh, is_default) = %r, expected %r'
+                         % (strs[:k + 1], got, want))
+                return
+    except Exception as e:
+        ctx.fail('exception:%s:history' % type(e).__name__, case, traceback.format_exc())
+
+
 def _plan(tier, seed):
     """-> list of work items (kind, index...) ; each is cheap to expand in the worker"""
-    sh = [('misc',)]
+    sh = [('misc',), ('history',)]
     if tier == 'quick':
         sh += [('l2', k, 8) for k in range(8)]          # two-letter languages, slice k of 8, sampled regions
         sh += [('regions', k, 4) for k in range(4)]     # all regions x sampled languages
@@ -164,10 +190,22 @@ def run_shard(ctx, shard):
                 regs = base + [rr.choice(r2) for _ in range(n - n // 3)] + [rr.choice(r3) for _ in range(n // 3)]
                 for reg in regs:
                     check_locale(ctx, lang, reg, _SIZES[i % len(_SIZES)])
+    elif kind == 'history':
+        pool = [('', ''), ('en', ''), ('en', 'US'), ('de', 'DE'), ('fr', ''), ('fil', ''), ('fil', 'PH'), ('es', '419'), ('ast', ''),
+                ('zh', 'CN'), ('haw', 'US'), ('yue', ''), ('aa', '00'), ('zzz', '999')]
+        pool += [(rnd.choice(l2), rnd.choice(r2 + r3 + [''])) for _ in range(20)] + [(rnd.choice(l3), rnd.choice(r2 + r3 + [''])) for _ in range(10)]
+        for a in pool:
+            for b in pool:
+                check_history(ctx, [a, b])
+        for _ in range(300 if ctx.tier == 'quick' else 5000):
+            check_history(ctx, [rnd.choice(pool) for _ in range(rnd.randint(3, 5))])
     else:
         raise HarnessError('unknown shard %r' % (shard,))
 
 
 def replay(ctx, case):
     _selftest()
+    if case.get('mode') == 'history':
+        check_history(ctx, [tuple(l) for l in case['locales']])
+        return
     check_locale(ctx, case['language'], case['region'], case.get('size', 28), case.get('fill', 0))
